@@ -790,15 +790,17 @@ PROPS = {
                     "implementation is a violation independent of the model.",
     ),
     "C04": dict(
-        level="proof", module="Rsdns.Props.C04",
-        technique="Lean 4 theorems (RDLENGTH exactness for all 17 decoders, raw access, next-record position) + differential correspondence",
+        level="proof", module="Rsdns.Props.C04", modules=["Rsdns.Props.C04", "Rsdns.Props.C04Local"],
+        technique="Lean 4 theorems (RDLENGTH exactness for all 17 decoders, raw access, next-record position, independence of every byte behind the RDATA) + differential correspondence",
         level_text="For every message, cursor and announced RDLENGTH: a successful typed read consumed exactly RDLENGTH bytes and "
-                   "closed its window; raw access returns exactly msg[p..p+rdlen); the next header starts right after. "
+                   "closed its window; raw access returns exactly msg[p..p+rdlen); the next header starts right after; the outcome of a typed "
+                   "read (value or error, and the cursor left) is the same on any two messages that agree on their first p+RDLENGTH "
+                   "bytes — no byte of a following record can influence it (rdata_local, data_local; Props/C04Local.lean). "
                    "Correspondence: every type with RDLENGTH off by -3..+3 and parseable neighbours.",
         level_note="Trusted: Lean kernel; model of cursor.rs window discipline and rfc1035.rs/rfc3596.rs decoders (validated by the "
                    "`rdata` and `reader` streams each run).",
         streams=[dict(name="rdata"), dict(name="reader", quick=8000)],
-        explanation="C04: rdata_exact / raw_exact / next_after_data theorems; stream `rdata` drives read_rr_data::<D> for the 17 D "
+        explanation="C04: rdata_exact / raw_exact / next_after_data / rdata_local / data_local theorems; stream `rdata` drives read_rr_data::<D> for the 17 D "
                     "through the hook with RDLENGTH deltas.",
     ),
     "C05": dict(
@@ -1019,8 +1021,8 @@ PROPS = {
         rule="the finite set of Send/Sync assertions in harness/typecheck/src/lib.rs is checked exhaustively by rustc; non-trivial = every assertion",
     ),
     "C08": dict(
-        level="proof", module="Rsdns.Props.C08",
-        technique="Lean 4 theorems (NameRef::eq = equality of the decoded names, same-offset shortcut included; Name/InlineName readers are the same function; skip succeeds wherever read does, at the same position) + cross-view agreement oracle on the real code",
+        level="proof", module="Rsdns.Props.C08", modules=["Rsdns.Props.C08", "Rsdns.Props.C08Views"],
+        technique="Lean 4 simulation proof between the cursor-style reader and the iterator API on arbitrary bytes (iter_agrees_with_pass) + theorems (NameRef::eq = equality of the decoded names, same-offset shortcut included; Name/InlineName readers are the same function; skip succeeds wherever read does, at the same position) + cross-view agreement oracle on the real code",
         level_text="Proved for all inputs: NameRef::eq on two names of one message — including its same-offset shortcut, whose soundness "
                    "rests on the uniqueness of the RFC expansion at a position — answers exactly what == answers on the decoded names "
                    "whenever both decode (nameref_eq_decoded); read_domain_name::<Name> = read_domain_name::<InlineName>; wherever an "
@@ -1028,11 +1030,15 @@ PROPS = {
                    "views (markers, borrowed names, owned names of both types, random access, iterator) and an oracle checks pairwise "
                    "agreement and monotonicity; every pair of names inside a message is compared by NameRef::eq/ne against equality of "
                    "the decoded names.",
-        level_note="PARTIAL proof: iter_vs_hd (iterator records = cursor-reader records restricted to defined types/classes) and "
-                   "at_eq_seq as one statement are decided by the oracle + correspondence (see Props/C08.lean header; typed random "
-                   "access is C10.at_closed_form). Comparison involving MessageReader views is limited to ≤ 65535 bytes.",
+        level_note="Props/C08Views.lean, iter_agrees_with_pass: for ANY byte string, whenever one linear pass with the cursor-style reader "
+                   "(owned names, the data call that fits each record's type) runs to the end, MessageIterator::new succeeds with the "
+                   "same header, questions() yields the same questions and records() yields exactly iterView of the same records "
+                   "(OPT / undefined class or type passed over, everything else identical and in order; a defined code without a data "
+                   "type is UnexpectedType) — by a simulation (record_sim, drain_sim, questions_sim; Lemmas/Views.lean). Markers vs "
+                   "borrowed vs owned headers and skip vs raw vs typed data positions: C09.pair_follows_pass; typed random access: "
+                   "C10.at_closed_form. Comparison involving MessageReader views is limited to ≤ 65535 bytes (MessageReader::new refuses more).",
         streams=[dict(name="views"), dict(name="nameeq", impl_oracle=nameeq_oracle)],
-        explanation="C08: nameref_eq_decoded, nameRefEqLoop_spec, eqLabels_iff_nameEq, read_kinds_agree, skip_of_read, walk_congr_mode; streams `views` and `nameeq`.",
+        explanation="C08: iter_agrees_with_pass (Props/C08Views.lean), nameref_eq_decoded, nameRefEqLoop_spec, eqLabels_iff_nameEq, read_kinds_agree, skip_of_read, walk_congr_mode; streams `views` and `nameeq`.",
     ),
     "C10": dict(
         level="proof", module="Rsdns.Props.C10",
